@@ -298,6 +298,15 @@ func c01Specs(thorough bool) []mb.Msg {
 	// file sources: every file API that consumes caller-owned memory at the call (AttachReader / EmbedReader on a
 	// reader over memory the caller recycles afterwards, on one scratch buffer the caller refills per file) and the
 	// lazy read-seeker, × file encoding × 1..2 embeds × 1..2 attachments
+	// parts whose content is replaced through Part.SetContent (what the EML parser does, too)
+	for ti := range texts {
+		for _, menc := range encs {
+			specs = append(specs,
+				mb.Msg{Enc: menc, Parts: []mb.Part{{Type: "text/plain", Content: texts[ti], Via: "setcontent"}}},
+				mb.Msg{Enc: menc, Parts: []mb.Part{{Type: "text/plain", Content: texts[ti], Via: "setcontent"}, {Type: "text/html", Content: texts[(ti+2)%len(texts)], Via: "setcontent", Enc: encs[ti%3]}}, Attach: []mb.File{{Name: "a.bin", Content: bins[ti%len(bins)]}}},
+			)
+		}
+	}
 	// bodies and files produced from templates (the content is the template's data)
 	for ti := range texts {
 		if bytes.ContainsAny(texts[ti], "\x00") {
@@ -365,7 +374,7 @@ func init() {
 	vf.Register(&vf.Check{
 		ID: "C01", Title: "rendered MIME carries exactly the content the caller supplied",
 		Run: func(r *vf.Run) {
-			r.SetRule("builder programs in canonical order: 0..3 body parts × 0..2 embeds × 0..2 attachments × message encoding {QP, base64, 8bit} × file encoding {default base64, 8bit, QP via File.Enc} × per-part encodings/descriptions/content types/fixed boundary, contents rotated through a 25-entry text alphabet and an 18-entry binary alphabet (wrap points 57/58/75/76/77, dots, '=', boundary-like lines, bare CR/LF, all 256 byte values, 3000-byte binary); plus every single byte value in every encoding; plus files supplied through AttachReader/EmbedReader (memory recycled by the caller afterwards; one scratch buffer refilled per file) and Attach/EmbedReadSeeker; bodies and files produced from text/html templates; each program is rendered through WriteTo, WriteToFile onto an existing longer file, NewReader, Write, WriteToTempFile and a second WriteTo of the same Msg; each rendering is re-read by the harness' own MIME reader and compared leaf by leaf; distinct by program")
+			r.SetRule("builder programs in canonical order: 0..3 body parts × 0..2 embeds × 0..2 attachments × message encoding {QP, base64, 8bit} × file encoding {default base64, 8bit, QP via File.Enc} × per-part encodings/descriptions/content types/fixed boundary, contents rotated through a 25-entry text alphabet and an 18-entry binary alphabet (wrap points 57/58/75/76/77, dots, '=', boundary-like lines, bare CR/LF, all 256 byte values, 3000-byte binary); plus every single byte value in every encoding; plus files supplied through AttachReader/EmbedReader (memory recycled by the caller afterwards; one scratch buffer refilled per file) and Attach/EmbedReadSeeker; bodies and files produced from text/html templates; part contents replaced through Part.SetContent; each program is rendered through WriteTo, WriteToFile onto an existing longer file, NewReader, Write, WriteToTempFile and a second WriteTo of the same Msg; each rendering is re-read by the harness' own MIME reader and compared leaf by leaf; distinct by program")
 			r.Assume("file media types without WithFileContentType are those of mime.TypeByExtension", "charset of text parts is the default UTF-8", "NUL bytes are not text")
 			specs := c01Specs(r.Thorough)
 			r.Extra("programs", len(specs))
@@ -430,7 +439,7 @@ func init() {
 				r.Reached("reached/faithful/via=" + n)
 			}
 			r.Reached("reached/faithful/file-source=reader", "reached/faithful/file-source=readseeker", "reached/faithful/file-source=buffer", "reached/faithful/file-source=ttpl", "reached/faithful/file-source=htpl",
-				"reached/faithful/part-via=string", "reached/faithful/part-via=tpl")
+				"reached/faithful/part-via=string", "reached/faithful/part-via=tpl", "reached/faithful/part-via=setcontent")
 		},
 		Replay: func(r *vf.Run, kase json.RawMessage) {
 			var k c01Case
